@@ -1234,6 +1234,15 @@ def main(repo: str, outdir: str, dry: bool = False) -> int:
         return (HEADER + "import Optyx.Py.GradSupport\n\nset_option linter.unusedVariables false\n\n"
                 "namespace Optyx.Generated\nopen Optyx Optyx.Py\n\n" + body + "\nend Optyx.Generated\n")
 
+    def f_lpstep():
+        import py2lean
+        try:
+            body = py2lean.gen_lp_steps(src("analysis.py"))
+        except py2lean.TranslateError as e:
+            raise TranslateError(str(e))
+        return (HEADER + "import Optyx.Py.LPSupport\n\nset_option linter.unusedVariables false\n\n"
+                "namespace Optyx.Generated\nopen Optyx Optyx.Py\n\n" + body + "\nend Optyx.Generated\n")
+
     def f_sort():
         return HEADER + "namespace Optyx.Generated\n\n" + gen_sort_glue(repo) + "\nend Optyx.Generated\n"
 
@@ -1253,7 +1262,7 @@ def main(repo: str, outdir: str, dry: bool = False) -> int:
     for fname, make in (("GradRules", f_rules), ("Tables", f_tables), ("Closures", f_closures), ("SolverGlue", f_glue),
                         ("JacRow", f_jacrow), ("InitPoint", f_init), ("Dispatch", f_dispatch),
                         ("ApiGlue", f_apiglue), ("LPGlue", f_lpglue), ("SortGlue", f_sort),
-                        ("DegreeStep", f_degstep), ("GradStep", f_gradstep)):
+                        ("DegreeStep", f_degstep), ("GradStep", f_gradstep), ("LPStep", f_lpstep)):
         path = os.path.join(outdir, fname + ".lean")
         try:
             text = make()
